@@ -34,7 +34,10 @@ func main() {
 	}
 	sc := bufio.NewScanner(in)
 	sc.Buffer(make([]byte, 1<<20), 1<<26)
-	out := bufio.NewWriterSize(os.Stdout, 1<<20)
+	// the engine prints diagnostics with fmt.Print*: keep them out of the result stream
+	realOut := os.Stdout
+	os.Stdout = os.Stderr
+	out := bufio.NewWriterSize(realOut, 1<<20)
 	defer out.Flush()
 	f(os.Args[3:], sc, out)
 }
